@@ -118,6 +118,8 @@ type Conn struct {
 	streams    map[uint64]*Call
 	bufferPool *buffer.Pool
 	writeSched scheduler.Scheduler
+	schedMu    sync.RWMutex
+	schedEnd   bool
 	readSched  scheduler.Scheduler
 	readStream scheduler.Scheduler
 	noCopy     bool
@@ -192,12 +194,19 @@ func (conn *Conn) SetNoCopy(noCopy bool) {
 
 func (conn *Conn) write(call *Call) {
 	if conn.writeSched != nil {
-		conn.writeSched.Schedule(func() {
-			conn.send(call)
-		})
-	} else {
-		conn.send(call)
+		// The reader closes the write queue when the connection ends; no
+		// caller may be scheduling on it at that moment.
+		conn.schedMu.RLock()
+		if !conn.schedEnd {
+			conn.writeSched.Schedule(func() {
+				conn.send(call)
+			})
+			conn.schedMu.RUnlock()
+			return
+		}
+		conn.schedMu.RUnlock()
 	}
+	conn.send(call)
 }
 
 func (conn *Conn) send(call *Call) {
@@ -319,6 +328,9 @@ func (conn *Conn) recv() {
 		conn.readSched.Close()
 	}
 	if conn.writeSched != nil {
+		conn.schedMu.Lock()
+		conn.schedEnd = true
+		conn.schedMu.Unlock()
 		conn.writeSched.Close()
 	}
 	if conn.readStream != nil {
